@@ -890,7 +890,7 @@ class XsdAssertionFacet(XsdFacet):
                 raise XMLSchemaValidationError(self, value, reason)
         except TypeError as err:
             self.invalid_type_error(err, value)
-        except ElementPathError as err:
+        except (ElementPathError, ArithmeticError) as err:
             raise XMLSchemaValidationError(self, value, reason=str(err)) from None
 
 
